@@ -301,7 +301,9 @@ func (e *Exec) bindResults(vars map[string]SV, fn *ssa.Function, sp *FuncSpec, r
 			vars[sp.ResultNames[i]] = v
 		}
 		if results.Len() == 1 {
-			vars["r"] = v
+			if _, taken := vars["r"]; !taken {
+				vars["r"] = v
+			}
 		}
 	}
 }
